@@ -64,6 +64,12 @@ pub enum Ev {
     UndoUntil(u32),
     #[serde(rename = "ul")]
     UndoLast,
+    /// Encoder::encode was called with these solvables (None = root)
+    #[serde(rename = "enc")]
+    Encode(Vec<Option<u32>>),
+    /// a soft requirement was registered in its package's tracker
+    #[serde(rename = "sreg")]
+    SoftRegister(u32),
 }
 #[derive(Clone, Debug, Default, Serialize, Deserialize, PartialEq, Eq)]
 pub struct Dump {
@@ -262,6 +268,8 @@ pub fn dump_obs(d: &resolvo::verif::VerifDump, core: Vec<u32>) -> Dump {
             }
             VerifEvent::UndoUntil(l) => Ev::UndoUntil(*l),
             VerifEvent::UndoLast => Ev::UndoLast,
+            VerifEvent::Encode(l) => Ev::Encode(l.iter().map(|&x| if x == u32::MAX { None } else { Some(x) }).collect()),
+            VerifEvent::SoftRegister(s) => Ev::SoftRegister(*s),
         })
         .collect();
     let trail = d.trail.iter().map(|&(x, b, l, r)| (v(x), b, l, r)).collect();
